@@ -134,8 +134,12 @@ def record_suite(suite, tier, seed, key):
         for c in range(0, nruns, chunk):
             p = os.path.join(cdir, "r%03d.ndjson" % c)
             sd = seed * 7919 + c * 104729 + (hash_name(suite) % 1000)
-            cmd = ["timeout", "300", drive_bin(profile), "random", "--elem", elem, "--seed", str(sd), "--runs",
-                   str(min(chunk, nruns - c)), "--events", str(nev)] + flags + ["--out", p]
+            if mode == "faults":
+                cmd = ["timeout", "600", drive_bin(profile), "faults", "--elem", elem, "--seed", str(sd), "--states",
+                       str(min(chunk, nruns - c))] + flags + ["--out", p]
+            else:
+                cmd = ["timeout", "300", drive_bin(profile), "random", "--elem", elem, "--seed", str(sd), "--runs",
+                       str(min(chunk, nruns - c)), "--events", str(nev)] + flags + ["--out", p]
             jobs.append((p, cmd))
         with cf.ThreadPoolExecutor(max_workers=8) as ex:
             futs = [(p, cmd, ex.submit(subprocess.run, cmd, stdout=subprocess.PIPE, stderr=subprocess.STDOUT, text=True))
@@ -210,7 +214,7 @@ def trace_stats(path):
             except Exception:
                 continue
             op = e.get("op")
-            if op in ("Header", "Reset", "EndRun", "Skip"):
+            if op in ("Header", "Reset", "EndRun", "Skip", "Snap"):
                 continue
             n += 1
             ops[op] = ops.get(op, 0) + 1
